@@ -599,3 +599,67 @@ theorem Eqv.refl_of (s : Sim) (h1 : PSR.privileged s.psr = false) (h2 : s.flags.
 
 end Lc3V.NI
 
+namespace Lc3V.NI
+open Lc3V Sim SimM Rt C10
+
+/-- two equivalent user-mode states that both run the same OS routine to its return (contracts `Rt.Returned`, as proved for
+    GETC, OUT, PUTS, IN, PUTSP) are equivalent afterwards — provided the supervisor stacks and what the routine may clobber
+    lie outside user space and, for a routine that delivers a result in R0, both got the same result -/
+theorem returned_pair (s u fs fu : Sim) (he : Eqv GU s u) (k : Bool) (E E' : W → Prop)
+    (r1 : Returned s fs (s.pc + 1) k E) (r2 : Returned u fu (u.pc + 1) k E')
+    (s1 : inUser (entrySp s - 1) = false) (s2 : inUser (entrySp s - 2) = false)
+    (u1 : inUser (entrySp u - 1) = false) (u2 : inUser (entrySp u - 2) = false)
+    (hE : ∀ a, E a → inUser a = false) (hE' : ∀ a, E' a → inUser a = false)
+    (hr0 : k = false → fs.reg 0 = fu.reg 0) : Eqv GU fs fu := by
+  have huu : PSR.privileged u.psr = false := by rw [← he.psr]; exact he.user
+  refine ⟨by rw [r1.psr]; exact he.user, by rw [r1.flags]; exact he.nip, by rw [r1.flags]; exact he.ns, by rw [r1.flags]; exact he.vt,
+    by rw [r1.psr, r2.psr]; exact he.psr, by rw [r1.pc, r2.pc, he.pc], ?_, by rw [r1.flags, r2.flags]; exact he.flags, fun a ha => ?_⟩
+  · apply Vector.ext
+    intro i hi
+    have hm : (BitVec.ofNat 3 i).toNat = i := by simp [BitVec.toNat_ofNat]; omega
+    have key : fs.reg (BitVec.ofNat 3 i) = fu.reg (BitVec.ofNat 3 i) := by
+      by_cases h6 : (BitVec.ofNat 3 i : Reg) = R6
+      · rw [h6, r1.r6user he.user, r2.r6user huu]; exact he.reg R6
+      · by_cases h0 : k = false ∧ (BitVec.ofNat 3 i : Reg) = 0
+        · rw [h0.2]; exact hr0 h0.1
+        · have hh : k = false → (BitVec.ofNat 3 i : Reg) ≠ 0 := fun hk e => h0 ⟨hk, e⟩
+          rw [r1.regs _ h6 hh, r2.regs _ h6 hh]; exact he.reg _
+    simp only [Sim.reg] at key
+    simpa only [hm] using key
+  · have hu : inUser a = true := by simpa [GU] using ha
+    have hlt : a.toNat < IO_START := by
+      unfold inUser at hu; unfold IO_START; simp only [Bool.and_eq_true, decide_eq_true_eq] at hu; omega
+    have n1 : ∀ c, inUser c = false → a ≠ c := fun c hc e => by rw [e, hc] at hu; cases hu
+    rw [r1.mem a hlt (n1 _ s1) (n1 _ s2) (fun h => by rw [hE a h] at hu; cases hu),
+      r2.mem a hlt (n1 _ u1) (n1 _ u2) (fun h => by rw [hE' a h] at hu; cases hu)]
+    exact he.mem a ha
+
+/-- two runs of the same program side by side: the left one may be interrupted; both may call OS routines -/
+inductive PRun : Sim → Sim → Nat → Sim → Sim → Prop
+  | done (s u : Sim) : PRun s u 0 s u
+  | step (s u s' u' t v : Sim) (n : Nat) : (s.dev.pollInterrupt).1 = none → (u.dev.pollInterrupt).1 = none →
+      NoTrapNext (Sim.afterPoll s) → Sim.step s = (.ok (), s') → Sim.step u = (.ok (), u') → PRun s' u' n t v → PRun s u (n + 1) t v
+  | intr (s f u t v : Sim) (n : Nat) : Eqv GU s f → PRun f u n t v → PRun s u n t v
+  | trap (s u fs fu t v : Sim) (n : Nat) (k : Bool) (E E' : W → Prop) :
+      Returned s fs (s.pc + 1) k E → Returned u fu (u.pc + 1) k E' →
+      inUser (entrySp s - 1) = false → inUser (entrySp s - 2) = false → inUser (entrySp u - 1) = false → inUser (entrySp u - 2) = false →
+      (∀ a, E a → inUser a = false) → (∀ a, E' a → inUser a = false) → (k = false → fs.reg 0 = fu.reg 0) →
+      PRun fs fu n t v → PRun s u (n + 1) t v
+
+/-- **interrupts are invisible to programs that also call the OS**: side by side, the interrupted and the uninterrupted run
+    of a user program (non-TRAP instructions and calls of OS routines that meet their contracts and, where they read input,
+    read the same input) stay equivalent — same registers, PC, PSR, flags and user memory at the end -/
+theorem paired_run_eqv : ∀ (s u : Sim) (n : Nat) (t v : Sim), PRun s u n t v → Eqv GU s u → Eqv GU t v := by
+  intro s u n t v h
+  induction h with
+  | done s u => exact fun he => he
+  | step s u s' u' t v n q1 q2 hnt h1 h2 _ ih =>
+    intro he
+    have ho := step_eqv outside_GU s u he q1 q2 hnt
+    rw [h1, h2] at ho
+    exact ih ho.2
+  | intr s f u t v n hj _ ih => exact fun he => ih (hj.symm.trans he)
+  | trap s u fs fu t v n k E E' r1 r2 a1 a2 b1 b2 hE hE' hr0 _ ih =>
+    exact fun he => ih (returned_pair s u fs fu he k E E' r1 r2 a1 a2 b1 b2 hE hE' hr0)
+
+end Lc3V.NI
